@@ -5,7 +5,7 @@ import os
 import re
 
 from .. import hir as H
-from ..mir import strip, show, short_path, contains
+from ..mir import rel_fact, strip, show, short_path, contains
 from ..report import ok, bad, info, site, Floor, VERIF
 
 RULE = "R-REGISTRY"
@@ -214,14 +214,17 @@ def check_extras(prog):
     for c in cl:
         for u, v, (d, val) in c._cond_edge_list():
             sd = strip(d)
-            if sd[0] == "bin" and sd[2][0] == "const":
+            if sd[0] != "bin" or (sd[2][0] == "const" and sd[3][0] == "const"):
                 continue        # `1 <= BASE && BASE <= 16` of the debug assertion: not a test of the digit
-            if sd[0] == "bin" and sd[1] in ("Lt", "Ge") and isinstance(val, bool):
-                # rhs is the const generic BASE (a constant of type u32 with no literal value)
-                if sd[3][0] == "const" and sd[3][1] is None:
-                    good = True
-            if sd[0] == "bin" and sd[1] in ("Gt", "Le") and sd[3][0] == "const" and sd[3][1] is None:
-                good = False
+            # canonical form of the edge: (op, a, b) with op in Lt/Le/Eq/Ne; BASE is a constant of type u32 with no literal value
+            r = rel_fact(d, val) if isinstance(val, bool) else None
+            if not r:
+                continue
+            is_base = lambda x: x[0] == "const" and x[1] is None
+            if r[0] == "Lt" and is_base(r[2]) and not is_base(r[1]):
+                good = True             # digit < BASE   (also spelled BASE > digit, !(digit >= BASE))
+            elif r[0] == "Le" and is_base(r[2]) and not is_base(r[1]) and val is True and sd[1] in ("Le", "Ge"):
+                good = False            # digit <= BASE accepted
                 break
     obs.append(ok(RULE, key, "", "a digit is accepted only if digit < BASE") if good else
                bad(RULE, key, "", "parse_nat does not test `digit < BASE` strictly: the first out-of-range digit (8 in octal, g in hex) would be accepted"))
